@@ -3,7 +3,8 @@ package main
 import "verifharness/tl"
 
 // C06: every accepted task is started exactly once, rejected tasks never; progress while the context is live.
-// Families (each in a process of its own): pushes that time out against a full lane; cancel inside every
+// Families (each in a process of its own): Task values of every dynamic type (pointer, func adapter, structs with
+// slice / map fields, equal comparable values, zero-size values) must each start exactly once; pushes that time out against a full lane; cancel inside every
 // Done()/Err() call of PushTask; cancel when everything is idle after work was done; cancel points with a task
 // in the queue goroutine's hands; work sharing as the progress case with a pinned worker; back-to-back
 // New/push/cancel/Wait; random stress (cancel after everything ran => progress is checked; cancel at a random
@@ -21,6 +22,7 @@ func scripted(en *tl.Engine) {
 		for _, c := range tl.Configs() {
 			n, q := c[0], c[1]
 			en.Timeouts(n, q)
+			en.TaskKinds(n, q, 3)
 			for k := 0; k < 4; k++ {
 				en.CancelInsidePush(n, q, k, k%2 == 1)
 			}
@@ -46,10 +48,10 @@ func stress(en *tl.Engine) {
 	}
 	for i := 0; i < small; i++ {
 		n, q := 1+en.Rng.Intn(3), en.Rng.Intn(3)
-		en.Stress(n, q, tl.StressOpt{PanicPct: 10, Observers: 0, CancelMode: 0}, i)
+		en.Stress(n, q, tl.StressOpt{PanicPct: 10, Observers: 0, CancelMode: 0, Kinds: true}, i)
 	}
 	for i := 0; i < big; i++ {
 		n, q := 1+en.Rng.Intn(4), en.Rng.Intn(4)
-		en.Stress(n, q, tl.StressOpt{Big: true, PanicPct: 10, Observers: 1, CancelMode: 0}, i)
+		en.Stress(n, q, tl.StressOpt{Big: true, PanicPct: 10, Observers: 1, CancelMode: 0, Kinds: true}, i)
 	}
 }
